@@ -110,10 +110,9 @@ package plan
 //@   requires -(1<<40) <= start && start <= 1<<40 && -(1<<40) <= end && end <= 1<<40
 //@   loop 0(i) invariant start <= i && i <= end && len(list) == end - start
 //@   loop 0(i) invariant forall(x, 0, i - start, list[x] == start + x)
-//@   loop 0(i) invariant case mem: forall(x int, start <= x && x < i ==> mem(list, x))
 //@   ensures case len:     len(ret0) == ite(start >= end, 0, end - start)
 //@   ensures case content: forall(x, 0, len(ret0), ret0[x] == start + x)
-//@   ensures case mem:     forall(x int, start <= x && x < end ==> mem(ret0, x))
+//@   ensures case mem:     forall(x int, start <= x && x < end ==> ret0[x-start] == x && mem(ret0, x))
 //@   ensures case sorted:  sorted(ret0)
 
 //@ func interList
